@@ -128,10 +128,19 @@ harness(void) {
     for (l = 0; l < 2; l++)
       VP_ASSERT(l >= got || ref_overlap_bytes(l + 2, a, b) <= 10 * (uint64_t)VP_MFS, "every level passed has <= 10*max_file_size grandparent bytes under the range");
     VP_ASSERT(got == want, "chosen level == the level the placement rule gives");
+#if VP_N0 > 0
     if (got == 0 && ref_overlap(0, 1, a, 1, b)) VP_WITNESS("level0-overlap");
+#endif
+#if VP_N1 > 0
     if (got == 0 && !ref_overlap(0, 1, a, 1, b) && ref_overlap(1, 1, a, 1, b)) VP_WITNESS("stopped-by-level1");
-    if (got == 1 && !ref_overlap(2, 1, a, 1, b)) VP_WITNESS("stopped-by-grandparent-bytes");
+#endif
+#if VP_N2 > 0
+    if (got == 0 && !ref_overlap(0, 1, a, 1, b) && !ref_overlap(1, 1, a, 1, b)) VP_WITNESS("stopped-at-0-by-grandparent-bytes");
     if (got == 1 && ref_overlap(2, 1, a, 1, b)) VP_WITNESS("stopped-by-level2");
+#endif
+#if VP_N3 > 0
+    if (got == 1 && !ref_overlap(2, 1, a, 1, b)) VP_WITNESS("stopped-at-1-by-grandparent-bytes");
+#endif
     if (got == 2) VP_WITNESS("level2");
   }
 #elif VP_MODE == 3
